@@ -46,6 +46,27 @@ def gen_scenario(rng, tier, big=False):
     return scn
 
 
+def gen_deepq_scenario(rng, tier):
+    """ queue-full DURING a multi-batch flush: the buffer is flushed at 30..45 results in
+    transit batches of 10 into a 2..4 slot queue with a slow collector, so put_nowait meets a
+    full queue while the task still holds more buffered results than the batch it is sending;
+    the 1 s/2 s/... back-off sleeps of put_result are scaled down 25x (task.time only) """
+    nfiles = rng.choice([2, 3, 4])
+    scn = gen.gen_run_scenario(rng, tier, nfiles=nfiles, constraint=0.0, empty=0.1,
+                               lines=rng.choice([60, 90, 140]))
+    if rng.random() < 0.7:
+        scn['defs'] = [{'type': 'simple', 'pats': [r'(\S*)'], 'tag': 't1', 'store': True}] + \
+            scn['defs'][:rng.choice([0, 1])]
+        scn['regs'] = [[i, k] for i in range(len(scn['defs'])) for k in range(nfiles)]
+    scn['max_parallel_tasks'] = rng.choice([2, 3, 4])
+    scn['_delays'] = rng.choice([2, 4])
+    scn['_dseed'] = rng.randrange(1 << 30)
+    scn['_patch'] = {'RESULTS_QUEUE_SIZE': rng.choice([2, 3, 4]),
+                     'NUM_BUFFERED_RESULTS': rng.choice([30, 45])}
+    scn['_sleep_scale'] = 25
+    return scn
+
+
 def run_mp(scn):
     """ the real multi-process run, with the hand-over trace """
     core.import_searchkit()
@@ -148,6 +169,16 @@ def run_mp(scn):
     patch(SR.ThreadManager, 'stop', stop)
     patch(SR.FileSearcher, '_get_results', staticmethod(_get_results))
     patch(SR.FileSearcher, '_purge_results', staticmethod(_purge_results))
+    if scn.get('_sleep_scale'):
+        class _Time:
+            def __getattr__(self, name):
+                return getattr(time, name)
+
+            @staticmethod
+            def sleep(secs):
+                log('qfull', 0, 0)       # task.py sleeps only in put_result's queue-full path
+                time.sleep(secs / scn['_sleep_scale'])
+        patch(TK, 'time', _Time())
     for k, v in scn.get('_patch', {}).items():
         patch(TK, k, v)
         if hasattr(SR, k):
@@ -162,7 +193,8 @@ def run_mp(scn):
             for line in f:
                 k, a, b = line.rstrip('\n').split('\t')
                 events.append([k, int(a), int(b)])
-        obs['events'] = events
+        obs['qfull'] = sum(1 for e in events if e[0] == 'qfull')
+        obs['events'] = [e for e in events if e[0] != 'qfull']
         obs['consts'] = {'FLUSH': TK.NUM_BUFFERED_RESULTS, 'MAXB': TK.QueueTransitBuffer.MAX}
         return obs
     finally:
@@ -206,6 +238,8 @@ def eval_cases(rng, count, extra):
             scn = item
         elif extra.get('gc'):
             scn = gen_gc_scenario(rng, extra.get('tier', 'quick'))
+        elif extra.get('deepq'):
+            scn = gen_deepq_scenario(rng, extra.get('tier', 'quick'))
         else:
             scn = gen_scenario(rng, extra.get('tier', 'quick'), extra.get('big', False))
         mp = run_mp(scn)
@@ -231,6 +265,9 @@ def judge(rep, item, mrun, cmo):
         rep.count('patched_threshold_runs')
     if scn.get('_gc_schedule'):
         rep.count('gc_scheduled_runs')
+    if scn.get('_sleep_scale'):
+        rep.count('deep_queue_runs')
+        rep.count('deep_queue_full_events', mp.get('qfull', 0))
     # (i) the property, literally: per path identical to the file searched alone
     errs_alone = [v['err'] for v in alone.values() if 'err' in v]
     if 'err' in mp or errs_alone:
@@ -290,6 +327,9 @@ def run(tier, seed, replay_case=None):
         ngc = 3 if tier == 'quick' else 40
         items += core.run_sharded(eval_cases, seed + 4, ngc, {'tier': tier, 'gc': True},
                                   shards=min(8, ngc), workers=8)
+        ndq = 6 if tier == 'quick' else 60
+        items += core.run_sharded(eval_cases, seed + 5, ndq, {'tier': tier, 'deepq': True},
+                                  shards=min(6, ndq), workers=6)
     drv = core.Driver()
     mruns = T.run_models([it['scn'] for it in items], drv)
     ccases = []
